@@ -421,9 +421,9 @@ theorem C13_skeleton_set_OnUpdate : skel_readableSet_OnUpdate =
       "defer call createdCallback.UnlockExecution", "unlock r.mutex", "if{", "call createdCallback.Invoke", "}if",
       "func{", "call r.updateCallbacks.Remove", "call createdCallback.MarkUnsubscribed", "}func", "return"] := by decide
 
-theorem C13_skeleton_event_Trigger : skel_event_Trigger = ["return"] := by decide
+theorem C13_skeleton_event_Trigger : skel_event_Trigger = ["call e.Set", "return"] := by decide
 
-theorem C13_skeleton_event_OnTrigger : skel_event_OnTrigger = ["func{", "}func", "helper OnUpdate", "return"] := by
+theorem C13_skeleton_event_OnTrigger : skel_event_OnTrigger = ["func{", "}func", "call e.OnUpdate", "return"] := by
   decide
 
 /-! ### the callback list (ds/list_impl.go)
@@ -503,6 +503,55 @@ theorem C13_skeleton_type_event : skel_type_event = ["struct", "embedded Variabl
 
 theorem C13_skeleton_type_threadSafeList : skel_type_threadSafeList =
     ["struct", "embedded *list[T]", "mutex sync.RWMutex"] := by decide
+
+/-! ### the subscription variants, the reader and the remaining writers (variable_impl.go)
+
+The variant machines of `Hive/Spec/ReactiveVariants.lean` mirror these bodies: `OnUpdateOnce` = inner
+`OnUpdate` whose callback tests `callbackTriggered.Get()`, then the condition, then `Trigger()`s, and
+an `OnTrigger` handler that unsubscribes in a goroutine and calls back; `OnUpdateWithContext` =
+inner `OnUpdate` whose callback first triggers the previous unsubscribed-event, and an unsubscribe
+function that triggers the last one; `WithValue` / `WithNonEmptyValue` on top of it; `Read`/`Get`
+under the read lock; `Init`, `Set`, `DefaultTo`, `ToggleValue`, `InheritFrom`, `DeriveValueFrom` are
+all `Compute` (the writer program). -/
+
+theorem C13_skeleton_variable_OnUpdateOnce : skel_readableVariable_OnUpdateOnce =
+    ["func{", "call callbackTriggered.Get", "if{", "return", "}if", "if{", "return", "}if",
+      "call callbackTriggered.Trigger", "}func", "call r.OnUpdate", "func{", "go", "}func",
+      "call callbackTriggered.OnTrigger", "return"] := by decide
+
+theorem C13_skeleton_variable_OnUpdateWithContext : skel_readableVariable_OnUpdateWithContext =
+    ["func{", "if{", "call previousUnsubscribedEvent.Trigger", "}if", "func{", "call unsubscribedEvent.WasTriggered",
+      "if{", "if{", "call unsubscribedEvent.OnTrigger", "}if", "}if", "}func", "}func", "call r.OnUpdate", "func{", "if{",
+      "call previousUnsubscribedEvent.Trigger", "}if", "}func", "return"] := by decide
+
+theorem C13_skeleton_variable_WithValue : skel_readableVariable_WithValue =
+    ["func{", "if{", "func{", "return", "}func", "}if", "}func", "call r.OnUpdateWithContext", "return"] := by decide
+
+theorem C13_skeleton_variable_WithNonEmptyValue : skel_readableVariable_WithNonEmptyValue =
+    ["func{", "return", "}func", "call r.WithValue", "return"] := by decide
+
+theorem C13_skeleton_variable_Read : skel_readableVariable_Read =
+    ["rlock r.valueMutex", "defer runlock r.valueMutex"] := by decide
+
+theorem C13_skeleton_variable_Get : skel_readableVariable_Get =
+    ["rlock r.valueMutex", "defer runlock r.valueMutex", "return"] := by decide
+
+theorem C13_skeleton_variable_Init : skel_variable_Init = ["call v.Set", "return"] := by decide
+
+theorem C13_skeleton_variable_Set : skel_variable_Set = ["func{", "return", "}func", "call v.Compute", "return"] := by
+  decide
+
+theorem C13_skeleton_variable_DefaultTo : skel_variable_DefaultTo =
+    ["func{", "if{", "}else{", "}if", "return", "}func", "call v.Compute", "return"] := by decide
+
+theorem C13_skeleton_variable_ToggleValue : skel_variable_ToggleValue =
+    ["call v.Set", "func{", "call v.Set", "}func", "return"] := by decide
+
+theorem C13_skeleton_variable_InheritFrom : skel_variable_InheritFrom =
+    ["func{", "call v.Set", "}func", "call other.OnUpdate", "return"] := by decide
+
+theorem C13_skeleton_variable_DeriveValueFrom : skel_variable_DeriveValueFrom = ["call v.InheritFrom", "return"] := by
+  decide
 
 end Skel
 
